@@ -172,12 +172,15 @@ SPECS = {
     },
     "C07": {
         **_meta('Everything the other dictionary drivers do (all sweeps, all states, abandoned iterators, repeated saves), plus run-time MEMALLOC 1..32768 and bucket sizes 0/1, executed under ASan (recover mode) + UBSan array-bounds/null with fatal signals and a CPU watchdog caught per call; every sanitizer report, signal or escaped exception is an event.', 'property-based testing + sanitizers as oracle (ASan/UBSan reports, caught fatal signals, CPU-time watchdog on tiny inputs)'),
-        "stages": dict_stages(ALL, 40, 8, floors={"memalloc_small": 200, "n_mult_bucket": 100, "maxlen_ge128": 100}),
+        "stages": (lambda tier: dict_stages(ALL, 40, 8, floors={"memalloc_small": 200, "n_mult_bucket": 100, "maxlen_ge128": 100})(tier)
+                   + [{"name": "perturb", "binary": "dict_plain", "param": "perturb", "plan": dict_plan(ALL, 20 * (4 if tier == "thorough" else 1), 4 * (4 if tier == "thorough" else 1)),
+                       "label_floors": {"c07_perturb_pair": 300}, "nontrivial_floor": 100}]),
         "rule": "case as C01 plus MEMALLOC class and bucket clamp; non-trivial = n==1, n multiple of the bucket size, a string "
-                ">=128 bytes, a reduced MEMALLOC or an abandoned iterator; distinct = hash of the decoded case",
+                ">=128 bytes, a reduced MEMALLOC or an abandoned iterator; distinct = hash of the decoded case. stage 'perturb' (plain build): "
+                "60 generated queries answered by the built and by the loaded object under mallopt(M_PERTURB, 0x11) and again under 0xEE, answers compared",
         "assumptions": DICT_ASSUME + ["leaks and new[]/delete mismatches are not reported (not part of the statement)",
                                       "memcmp over-reads that stop at a guaranteed earlier difference are not reported (strict_memcmp=0)",
-                                      "uninitialised reads are only visible through their effects here (valgrind tier: thorough)"],
+                                      "uninitialised reads are visible through their effects only: answers that change with the heap fill pattern (perturb stage) and images that change with it (C08); no valgrind / MSan tier"],
     },
     "C08": {
         **_meta('Histories build,(query|save)* and load,(query|save)* on every kind: images of repeated saves compared byte for byte, answers before/after each save compared, two independent builds compared, re-saved images of loaded objects compared or reloaded and re-queried.', 'property-based testing (rapidcheck), byte-equality + differential before/after oracle'),
